@@ -383,6 +383,7 @@ def _classify(hist, bad):
 
 
 ALG = 'pyphysim.ia.algorithms'
+EXTRA_SOLVERS = ('AlternatingMinIASolver', 'MaxSinrIASolver')
 
 
 class SolveStructure(Harness):
@@ -395,6 +396,7 @@ class SolveStructure(Harness):
     initialize_with = 'fix' / 'random'."""
     name = 'solve-structure'
     modules = (ALG, IAB, MU, MISC, CONV)
+    # also AlternatingMinIASolver and MaxSinrIASolver (see EXTRA_SOLVERS)
     functions = (ALG + ':IterativeIASolverBaseClass.solve',
                  ALG + ':IterativeIASolverBaseClass._solve_init',
                  ALG + ':IterativeIASolverBaseClass._initialize_F_randomly_and_find_W',
@@ -406,7 +408,8 @@ class SolveStructure(Harness):
                  ALG + ':MinLeakageIASolver._calc_Uk_all_k_rev',
                  IAB + ':IASolverBaseClass.calc_Q',
                  IAB + ':IASolverBaseClass.calc_Q_rev', MISC + ':leig')
-    bounds = ('MinLeakageIASolver, K=2, Nr=Nt=2, one stream, max_iterations=1; '
+    bounds = ('MinLeakage / AlternatingMin / MaxSinr IASolver, K=2, Nr=Nt=2, '
+              'one stream, max_iterations=1; '
               'histories: solve(P1) | solve(P1); initialize_with=fix|random; '
               'solve(P2)')
     stubs = ('np.linalg.eig of a Hermitian matrix -> real eigenvalues, unitary '
@@ -418,9 +421,8 @@ class SolveStructure(Harness):
                    'the eig stub returns distinct eigenvalues in ascending '
                    'order (numpy promises no order; the code sorts them)')
     outside = ('what the iteration converges to (alignment, monotone leakage)',
-               'the other solvers (alternating minimisation needs the same '
-               'machinery; max-SINR / MMSE / closed form use inverses and '
-               'non-Hermitian eigenproblems)')
+               'MMSE and closed-form solvers (Lagrange multiplier search, '
+               'non-Hermitian eigenproblem)')
     div_mode = 'assume'
     reach = 'concrete'
     exact_const_sqrt = True
@@ -428,8 +430,12 @@ class SolveStructure(Harness):
     unit_wall_s = {'quick': 300, 'thorough': 1800}
 
     def configs(self, tier):
-        return [dict(K=2, hist='single'), dict(K=2, hist='fix'),
-                dict(K=2, hist='random')]
+        out = [dict(K=2, hist='single'), dict(K=2, hist='fix'),
+               dict(K=2, hist='random')]
+        for sv in EXTRA_SOLVERS:
+            out += [dict(K=2, hist='single', solver=sv),
+                    dict(K=2, hist='fix', solver=sv)]
+        return out
 
     def _run(self, cfg, mk, alg):
         mu = repo_module(MU)
@@ -438,7 +444,9 @@ class SolveStructure(Harness):
         H = mk.cmat('H', (sum(Nr), sum(Nt)))
         ch = mu.MultiUserChannelMatrix()
         ch.init_from_channel_matrix(H, np.array(Nr), np.array(Nt), K)
-        sol = alg.MinLeakageIASolver(ch)
+        if cfg.get('solver') == 'MaxSinrIASolver':
+            ch.noise_var = mk.pos('nv')     # its covariance needs noise
+        sol = getattr(alg, cfg.get('solver', 'MinLeakageIASolver'))(ch)
         sol._rs = _StubRS(mk.rng)
         sol.max_iterations = 1
         P1 = mk.pos('p1')
@@ -527,8 +535,9 @@ class SolveStructure(Harness):
             bad = self._numeric(cfg, random.Random(seed))
             if bad:
                 return dict(reproduced=True,
-                            key='C10/solve/%s:%s' % (cfg['hist'],
-                                                     '+'.join(bad)),
+                            key='C10/solve/%s/%s:%s' % (
+                                cfg.get('solver', 'MinLeakageIASolver'),
+                                cfg['hist'], '+'.join(bad)),
                             detail=dict(seed=seed, cfg=cfg, bad=bad))
         return dict(reproduced=False, key=None, detail='no witness')
 
